@@ -38,29 +38,19 @@ theorem bound_mono_n {K S n n' k s : Nat} (h : n' ≤ n) : bound K S n' k s ≤ 
     Nat.mul_le_mul_right _ (Nat.add_le_add_right (Nat.mul_le_mul_right _ h) _)
   omega
 
-theorem takeUntilGo_count (ks : List Kind) : ∀ (ts : List Tok) (n : Nat),
-    (takeUntilGo ks ts n).2.1 ≤ n + ts.length := by
+theorem takeUntil_body_len (ks : List Kind) : ∀ ts : List Tok,
+    (takeUntil ks ts).2.1.length + (takeUntil ks ts).1.length ≤ ts.length := by
   intro ts
   induction ts with
-  | nil => intro n; simp [takeUntilGo]
+  | nil => simp [takeUntil]
   | cons t rest ih =>
-    intro n
-    simp only [takeUntilGo]
+    simp only [takeUntil]
     split
+    · simp
     · simp only [List.length_cons]; omega
-    · have := ih (n + 1); simp only [List.length_cons]; omega
 
-theorem takeUntil_body_short (ks : List Kind) (ts : List Tok) (hne : (takeUntil ks ts).2.1 ≠ []) :
-    (takeUntil ks ts).2.1.length < ts.length := by
-  have hc := takeUntilGo_count ks ts 0
-  rcases hg : takeUntilGo ks ts 0 with ⟨rest, count, e⟩
-  rw [hg] at hc
-  simp only [takeUntil, hg] at hne ⊢
-  cases ts with
-  | nil => simp at hne
-  | cons t rest' =>
-    simp only [List.length_take, List.length_cons] at hc ⊢
-    omega
+theorem takeUntil_body_le (ks : List Kind) (ts : List Tok) : (takeUntil ks ts).2.1.length ≤ ts.length := by
+  have := takeUntil_body_len ks ts; omega
 
 theorem expTokGo_nofuel (k : Kind) (orig : List Tok) : ∀ l, (expTokGo k orig l).isFuel = false := by
   intro l
@@ -279,17 +269,21 @@ theorem adequate (W : WF Γ Δ nulΓ nulΔ rkΓ rkΔ K S) : ∀ (f : Nat) (g : G
     | reslice ks inner =>
       simp only [runP]
       simp only [allOK] at ha
+      simp only [headOK] at hh
       simp only [G.size] at hs
+      have hle := takeUntil_body_le ks ts
       rcases htu : takeUntil ks ts with ⟨rest, body, e⟩
-      simp only
+      rw [htu] at hle
+      simp only at hle ⊢
       cases body with
       | nil => rfl
       | cons b0 bs =>
         simp only
-        have hshort : (b0 :: bs).length < ts.length := by
-          have := takeUntil_body_short ks ts (by rw [htu]; simp)
-          rw [htu] at this; exact this
-        have := shorter inner (b0 :: bs) hshort (by omega) ha
+        have := ih inner (b0 :: bs) k true
+          (by have h1 := @bound_sub K S ts.length k (G.reslice ks inner).size inner.size (by simp [G.size])
+              have h2 := @bound_mono_n K S ts.length (b0 :: bs).length k inner.size hle
+              omega)
+          hh ha (by omega) hk (fun _ => by simp)
         rcases hq : runP Γ Δ f inner (b0 :: bs) with ⟨ri, di⟩
         rw [hq] at this
         cases ri <;> simp_all [R.isFuel]
